@@ -450,7 +450,11 @@ def discharge(assumptions, goal, timeout_ms, name="ob"):
         # other process is killed (a slow back end no longer delays the other one's proof)
         import time as _time
         procs = []
-        for cmd, be in (["z3-new", f"-T:{secs}", fn], "z3-cli"), (["/usr/bin/cvc5", f"--tlimit={secs * 1000}", fn], "cvc5"):
+        # three back ends: z3 with its default configuration, z3 restricted to E-matching (the configuration of the in-process
+        # attempt, but with the full budget: an obligation the in-process solver normally discharges within its 2 s can exceed
+        # them on a loaded machine), and cvc5
+        for cmd, be in ((["z3-new", f"-T:{secs}", fn], "z3-cli"), (["z3-new", "smt.mbqi=false", f"-T:{secs}", fn], "z3-cli-ematching"),
+                        (["/usr/bin/cvc5", f"--tlimit={secs * 1000}", fn], "cvc5")):
             try:
                 procs.append((be, subprocess.Popen(cmd, stdout=subprocess.PIPE, stderr=subprocess.DEVNULL, text=True)))
             except OSError as e:
@@ -481,7 +485,7 @@ def discharge(assumptions, goal, timeout_ms, name="ob"):
                     p.wait(timeout=5)
                 except Exception:
                     pass
-        for be in ("z3-cli", "cvc5"):
+        for be in ("z3-cli", "z3-cli-ematching", "cvc5"):
             if be in answers:
                 detail += f"; {be}: {answers[be][:60]}"
     finally:
